@@ -320,6 +320,14 @@ func (e *Analysis[S]) refineNil(st *fstate[S], cond ast.Expr, branch bool) {
 		}
 		return
 	}
+	// errors.Is(err, X) / errors.As(err, &x) being true implies err != nil.
+	if call, ok := cond.(*ast.CallExpr); ok && branch && len(call.Args) == 2 {
+		if k := calleeKey(e.Info, call); k == "errors.Is" || k == "errors.As" {
+			if obj := objOf(e.Info, call.Args[0]); obj != nil {
+				st.nils[obj] = nonNil
+			}
+		}
+	}
 	if be, ok := cond.(*ast.BinaryExpr); ok && (be.Op == token.NEQ || be.Op == token.EQL) {
 		x, y := unparen(be.X), unparen(be.Y)
 		if isNilIdent(e.Info, x) {
